@@ -28,7 +28,8 @@ TECHNIQUE = "exhaustive enumeration of the scope-program grammar (all forests up
 RULE = (
     "all ordered forests of blocks with <= N nodes; block kind in {async scope, sync scope, "
     "updated, async scope fed by disposables}; supply from an 8-element alphabet over {A, A2(A), "
-    "R(required attr), G[int]}; probe (ctx.state(T) and ctx.state(T, default) for every T) at "
+    "R(required attr), G[int]} (+ instances value-equal to the enclosing one, + U with a required "
+    "union-typed attribute, in a 1-3 block sub-family); probe (ctx.state(T) and ctx.state(T, default) for every T) at "
     "every position, both probe orders; non-trivial = some type is supplied at two nesting levels "
     "or by two instances in one block, or a subclass is supplied while the base is asked; "
     "extension family (<= 2 blocks): every block additionally ends by return / exception / "
@@ -46,6 +47,7 @@ EXHAUSTIVE = {"quick": True, "thorough": True}
 SAMPLE_EVERY = {"quick": 30000, "thorough": 60000}
 
 KINDS = ["ascope", "sscope", "updated", "dscope"]
+TYPES = ("A", "A2", "R", "G", "U")
 
 
 def _forests(n_max: int, kinds: list[str], supplies: list[int]):
@@ -90,6 +92,14 @@ def programs(tier: str):
             for shape in forest_shapes(2):
                 k += 1
                 yield {"forest": label_forest(shape, [list(a), list(b)]), "order": "nd-first" if k % 2 else "d-first"}
+    # value-equal re-supplies and a type whose default construction fails with an ExceptionGroup
+    for sup in (8, 9, 10):
+        for kind in KINDS:
+            yield {"forest": [{"l": [kind, sup], "c": []}], "order": "nd-first"}
+            for okind in KINDS:
+                for osup in (1, 4, 5):
+                    yield {"forest": [{"l": [okind, osup], "c": [{"l": [kind, sup], "c": []}]}], "order": "d-first"}
+                    yield {"forest": [{"l": [okind, osup], "c": [{"l": ["updated", 0], "c": [{"l": [kind, sup], "c": []}]}]}], "order": "nd-first"}
     if tier == "thorough":
         n4 = 0
         for shape in forest_shapes(4):
@@ -116,11 +126,11 @@ def execute(program, ch: Chooser) -> Result:  # noqa: C901, PLR0915
     supplied: dict[int, str] = {}
     keep: list = []
     counter = itertools.count()
-    stats = {"shadow": False, "dup": False, "sub": False, "prep": False, "abnormal": False}
+    stats = {"shadow": False, "dup": False, "sub": False, "prep": False, "abnormal": False, "equal": False}
 
     def probe(pos: str, env: list[dict], in_scope: bool, soft_root: bool) -> None:
-        got = probe_state(supplied, order)
-        exp = expected_state(env, in_scope)
+        got = probe_state(supplied, order, types=TYPES)
+        exp = expected_state(env, in_scope, types=TYPES)
         for k in exp:
             if got[k] != exp[k]:
                 if soft_root and got[k] == ("MissingContext",):
@@ -150,19 +160,36 @@ def execute(program, ch: Chooser) -> Result:  # noqa: C901, PLR0915
             return ctx.updated(*r["states"])
         return ctx.scope(r["label"], disposables=disposables_for(r["states"]))
 
-    def prepare(blocks):
+    def prepare(blocks, enclosing_a: str | None = None):
         for b in blocks:
             label = f"b{next(counter)}"
-            names = SUPPLY[b["l"][1]]
-            states = make_states(names, label)
+            raw_names = SUPPLY[b["l"][1]]
+            states = make_states(raw_names, label)
+            names = []
+            idents = []
+            for i, (st, nm) in enumerate(zip(list(states), raw_names)):
+                ident = f"{label}.{i}"
+                if nm == "A=":
+                    from hv.ctxkit import A as _A
+
+                    st = _A(tag=enclosing_a if enclosing_a is not None else "free")
+                    states[i] = st
+                    ident += "=equal-to-enclosing"
+                    nm = "A"
+                    stats["equal"] = True
+                names.append(nm)
+                idents.append(ident)
+                supplied[id(st)] = ident  # identity label (independent of the value)
             keep.extend(states)
-            rt[id(b)] = {"label": label, "states": states, "names": names, "cm": None}
-            for st in states:
-                supplied[id(st)] = st.tag
+            rt[id(b)] = {"label": label, "states": states, "names": names, "idents": idents, "cm": None}
+            inner_a = enclosing_a
+            for st, nm in zip(states, names):
+                if nm == "A":
+                    inner_a = st.tag
             if len(b["l"]) > 3 and b["l"][3]:
                 rt[id(b)]["cm"] = build(b)  # built now, entered later
                 stats["prep"] = True
-            prepare(b["c"])
+            prepare(b["c"], inner_a)
 
     async def run(blocks, env: list[dict], in_scope: bool, soft_root: bool, path: str):
         probe(f"{path}:pre", env, in_scope, soft_root)
@@ -171,10 +198,10 @@ def execute(program, ch: Chooser) -> Result:  # noqa: C901, PLR0915
             ending = b["l"][2] if len(b["l"]) > 2 else "return"
             r = rt[id(b)]
             level: dict[str, str] = {}
-            for st, nm in zip(r["states"], r["names"]):
+            for ident, nm in zip(r["idents"], r["names"]):
                 if nm in level:
                     stats["dup"] = True
-                level[nm] = st.tag
+                level[nm] = ident
             if any(nm in lv for lv in env for nm in level):
                 stats["shadow"] = True
             if "A2" in level and "A" not in level:
@@ -215,7 +242,7 @@ def execute(program, ch: Chooser) -> Result:  # noqa: C901, PLR0915
         exc = task.exception()
         if exc is not None:
             viols.append(viol("driver", type(exc).__name__, "program runs", repr(exc)[:200]))
-        nontrivial = stats["shadow"] or stats["dup"] or stats["sub"] or stats["prep"] or stats["abnormal"]
+        nontrivial = stats["shadow"] or stats["dup"] or stats["sub"] or stats["prep"] or stats["abnormal"] or stats["equal"]
         outcome = f"shadow={stats['shadow']}/dup={stats['dup']}/sub={stats['sub']}/prep={stats['prep']}/abn={stats['abnormal']}/probes={min(len(probes), 9)}"
         return Result(outcome, nontrivial, viols[:4], {"probes": probes[:12]}, steps=len(probes) + 2 * next(counter))
     finally:
